@@ -18,6 +18,8 @@ import (
 	"strings"
 	"sync"
 	"testing"
+	"time"
+	"verif/internal/envwatch"
 
 	"pgregory.net/rapid"
 
@@ -161,6 +163,34 @@ type Prop[C any] struct {
 }
 
 func (p Prop[C]) run(c C) (x *Ctx, f *Finding) {
+	// environment trouble (overloaded embedded etcd, see package envwatch) is not behaviour of the
+	// code under test: the case is run again after a pause, and discarded if it stays disturbed
+	for attempt := 0; ; attempt++ {
+		before := envwatch.Count()
+		x, f = p.runRetry(c)
+		if f != nil && (envwatch.IsEnvErr(f.Msg) || envwatch.IsEnvErr(f.Key)) {
+			envwatch.Bump()
+		}
+		if envwatch.Count() == before {
+			return x, f
+		}
+		stats.Label("environment-disturbed-attempt")
+		if attempt >= 2 {
+			envDiscarded++
+			if envDiscarded > 200 {
+				panic(fmt.Sprintf("harness: %d cases discarded because the embedded etcd kept timing out: the machine is too overloaded for this run", envDiscarded))
+			}
+			x = &Ctx{}
+			x.Label("discarded:environment-disturbed")
+			return x, nil
+		}
+		time.Sleep(time.Duration(2+3*attempt) * time.Second)
+	}
+}
+
+var envDiscarded int
+
+func (p Prop[C]) runRetry(c C) (x *Ctx, f *Finding) {
 	x, f = p.runOnce(c)
 	if f != nil && p.Retry != nil && p.Retry(f) {
 		stats.Inconclusive()
@@ -174,13 +204,28 @@ func (p Prop[C]) run(c C) (x *Ctx, f *Finding) {
 
 func (p Prop[C]) runOnce(c C) (x *Ctx, f *Finding) {
 	x = &Ctx{}
-	if p.PanicKey != "" {
-		defer func() {
-			if r := recover(); r != nil {
-				f = &Finding{Key: p.PanicKey, Msg: fmt.Sprintf("panic: %v\n%s", r, trimStack(debug.Stack()))}
-			}
-		}()
-	}
+	defer func() {
+		r := recover()
+		if r == nil {
+			return
+		}
+		if he, ok := r.(envwatch.HarnessErr); ok && he.Env() {
+			envwatch.Bump()
+			f = nil
+			return
+		}
+		if envwatch.IsEnvErr(fmt.Sprint(r)) {
+			envwatch.Bump()
+			f = nil
+			return
+		}
+		if p.PanicKey != "" {
+			f = &Finding{Key: p.PanicKey, Msg: fmt.Sprintf("panic: %v\n%s", r, trimStack(debug.Stack()))}
+			return
+		}
+		fmt.Fprintf(os.Stderr, "panic in property %s: %v\n%s\n", p.Test, r, debug.Stack())
+		panic(r)
+	}()
 	f = p.Run(x, c)
 	return x, f
 }
